@@ -116,16 +116,26 @@ func (a *Amqp) consumeAMQP() {
 	for {
 		select {
 		case m := <-a.delivery:
-			// note that we don't support lines longer than 4096B. that seems very reasonable..
 			r := bufio.NewReaderSize(bytes.NewReader(m.Body), 4096)
 			for {
-				buf, _, err := r.ReadLine()
+				buf, isPrefix, err := r.ReadLine()
 
 				if err != nil {
 					if io.EOF != err {
 						log.Error(err.Error())
 					}
 					break
+				}
+
+				if isPrefix {
+					// the line does not fit the read buffer: ReadLine hands it over in pieces,
+					// put them back together instead of dispatching fragments
+					line := append([]byte(nil), buf...)
+					for isPrefix && err == nil {
+						buf, isPrefix, err = r.ReadLine()
+						line = append(line, buf...)
+					}
+					buf = line
 				}
 
 				a.dispatcher.Dispatch(buf)
